@@ -70,8 +70,8 @@ func main() {
 	go func() { wg.Wait(); close(done) }()
 	select {
 	case <-done:
-	case <-time.After(150 * time.Second):
-		fmt.Println("calls did not return within 150 seconds (deadlock?)")
+	case <-time.After(240 * time.Second):
+		fmt.Println("calls did not return within 240 seconds (deadlock?)")
 		os.Exit(1)
 	}
 	// goroutines started by the library must be gone (a leaked one never exits: the grace only delays)
